@@ -12,9 +12,13 @@ A  operation histories: ALL sequences of length <= 4 (quick) / <= 5 (thorough)
    (result identity | exception identity, body log incl. argument identities
    and a context probe) must be equal while checking is off; while it is on,
    ill-typed calls must raise jaxtyping.TypeCheckError (no re-decoration).
-B  matrix: every kind x decorator arrangement x delivery (explicit decorator |
-   install_import_hook) x typechecker x no_type_check placement x switch
-   timing (before / after decoration) x a battery of ~20 argument lists.
+B  matrix: every kind (incl. a callable INSTANCE, an instance of a __slots__ class, a BOUND
+   METHOD as the decorated object) x decorator arrangement x delivery (explicit decorator |
+   install_import_hook) x typechecker (typeguard | beartype | None) x no_type_check placement
+   (above / below the decorator, on the class - for a callable instance the flag is then
+   visible through getattr(fn, ...) without being in fn.__dict__ -, 'late' = applied to the
+   function after jaxtyped wrapped it) x switch timing (before / after decoration) x a
+   battery of ~20 argument lists.
 C  config.update: every letter-case of the item names x switch values x prior
    state; accepted spellings exactly {0,1,true,false any case, bool}.
 D  environment: one subprocess per (variable, value); import must raise
@@ -37,10 +41,24 @@ E  lazy callables (coroutine functions, generator functions, async generators; a
    while checking is off must equal plain code for its whole life, whatever the switch
    does later.
 
+N  names: with checking off the wrapper must pass (*args, **kwargs) through untouched whatever
+   the NAMES of the keyword arguments are.  Alphabet = identifiers the wrapper machinery uses
+   itself (parameter / local / closure names of every code object of the jaxtyping sources of the
+   tree under test, read at run time) + a fixed list of conventional wrapper vocabulary (fn,
+   args, kwargs, self, cls, func, wrapped, ...).  Every name is used as a positional-or-keyword
+   parameter passed by keyword, as a keyword-only parameter, as a positional-only parameter whose
+   name is also a **kwargs key, and as a key of **kwargs of f(zq, **kw) / f(*a, **kw); for every
+   holder (function, method, class/static method in both orders, dataclass, lambda, callable
+   instance, __slots__ instance, bound method, coroutine / generator / async generator function),
+   typeguard / beartype / typechecker=None, explicit decorator and import hook, every
+   no_type_check placement and the switch flipped before / after decoration; and in the
+   environment children.  Differential against the same source without jaxtyped.
+
 jaxtyping.config is restored to "enabled" in finally blocks everywhere.
 """
 from __future__ import annotations
 
+import functools
 import importlib
 import itertools
 import json
@@ -173,13 +191,25 @@ FAMILY = {
     "property_inner": "F2",
     "dataclass": "F3",
     "lambda": "F1",
+    # the decorated object is not a function: an INSTANCE with __call__ (also of a __slots__
+    # class), a BOUND METHOD.  With no_type_check on the class the flag is visible through
+    # getattr(fn, "__no_type_check__") without being stored in fn.__dict__ at decoration time
+    "inst": "F1",
+    "inst_slots": "F1",
+    "boundmethod": "F1",
 }
 HOOK_KINDS = ("def", "method", "classmethod_inner", "staticmethod_inner", "property_inner", "dataclass")
 
 # judged no_type_check placements: only where typing.no_type_check marks the function
 # itself or the wrapper jaxtyped returned for it (see DC zones in the final notes)
 NTC_PLACEMENTS = {
-    ("deco", "def"): ("above", "below"),
+    # late: typing.no_type_check(fn) AFTER jaxtyped wrapped fn; used / used-above: the function / the
+    # wrapper is marked after the wrapper has already been CALLED once (the marker is an attribute,
+    # it may appear at any time)
+    ("deco", "def"): ("above", "below", "late", "used", "used-above"),
+    ("deco", "inst"): ("above", "cls"),
+    ("deco", "inst_slots"): ("cls",),  # (typing.no_type_check cannot mark an object without __dict__: no 'above')
+    ("deco", "boundmethod"): ("below", "cls"),  # (nor a bound method: no 'above' either)
     ("deco", "method"): ("above", "below", "cls"),
     ("deco", "classmethod_outer"): ("below", "cls"),
     ("deco", "classmethod_inner"): ("above", "below", "cls"),
@@ -212,23 +242,51 @@ HOOK_LAZY_KINDS = ("gen_def", "gen_method", "gen_classmethod_inner", "gen_static
 LAZY_RET = {"coro": "A", "gen": "Iterator[AG]", "agen": "AsyncIterator[AG]"}
 
 
+@functools.lru_cache(maxsize=4096)
+def split_kind(kind):
+    """'<holder>' | '<holder>~<role>~<name>[,<name>..]' (names part: the parameter names /
+    **kwargs keys of the callable are taken from the name alphabet) -> (holder, role, names)."""
+    if "~" not in kind:
+        return kind, None, ()
+    holder, role, names = kind.split("~")
+    return holder, role, tuple(n for n in names.split(",") if n)
+
+
+def holder_of(kind):
+    return split_kind(kind)[0]
+
+
 def base_kind(kind):
     """The holder shape that decides how a kind is reached and called."""
+    kind = holder_of(kind)
     if kind in _LAZY_SET:
         return kind.split("_", 1)[1]
     return "def" if kind == "lambda" else kind
 
 
 def flavour(kind):
+    kind = holder_of(kind)
     return kind.split("_", 1)[0] if kind in _LAZY_SET else None
 
 
 def family(kind):
+    kind = holder_of(kind)
     return "F1" if kind in _LAZY_SET else FAMILY[kind]
 
 
+def battery_of(kind):
+    holder, role, names = split_kind(kind)
+    if role is None:
+        return BATTERY[family(kind)]
+    return name_battery(holder, role, names)
+
+
 def ntc_placements(delivery, kind):
-    return NTC_PLACEMENTS[(delivery, kind if kind == "lambda" else base_kind(kind))]
+    kind = holder_of(kind)
+    if kind in _LAZY_SET:
+        # 'late' marks a function already wrapped; for lazy callables the ordinary placements are kept
+        return tuple(p for p in NTC_PLACEMENTS[(delivery, base_kind(kind))] if p not in ("late", "used", "used-above"))
+    return NTC_PLACEMENTS[(delivery, kind)]
 
 
 def _lines(decos, indent):
@@ -246,31 +304,127 @@ def _fn_level(j, ntc):
     return d
 
 
+def name_params(role, names):
+    """Parameter list of a names-part callable: [(name, kind, has_default)], kind in
+    po (positional-only) | pk | va (*args) | ko (keyword-only) | vk (**kwargs).
+    zq / zq_a / zq_kw are the harness's own (collision-free) names."""
+    if role == "pk":  # every name an optional positional-or-keyword parameter
+        return [("zq", "pk", False)] + [(n, "pk", True) for n in names]
+    if role == "pk1":  # ONE name, the required first parameter
+        return [(names[0], "pk", False), ("zq", "pk", True)]
+    if role == "ko":  # every name an optional keyword-only parameter
+        return [("zq", "pk", False)] + [(n, "ko", True) for n in names]
+    if role == "ko1":  # ONE name, a required keyword-only parameter
+        return [("zq", "pk", False), (names[0], "ko", False)]
+    if role == "po":  # every name a positional-only parameter AND usable as a key of **kwargs
+        return [("zq", "po", False)] + [(n, "po", True) for n in names] + [("zq_kw", "vk", False)]
+    if role == "vk":  # the names are keys of **kwargs
+        return [("zq", "pk", False), ("zq_kw", "vk", False)]
+    if role == "va":
+        return [("zq_a", "va", False), ("zq_kw", "vk", False)]
+    raise HarnessError(f"unknown role {role}")
+
+
+def sig_text(params, annotated=True):
+    out, seen_star = [], False
+    for i, (n, k, d) in enumerate(params):
+        if k in ("ko",) and not seen_star:
+            out.append("*")
+            seen_star = True
+        piece = {"va": "*", "vk": "**"}.get(k, "") + n
+        if k == "va":
+            seen_star = True
+        if annotated:
+            piece += ": A"
+        if d:
+            piece += " = DFLT" if annotated else "=DFLT"
+        out.append(piece)
+        if k == "po" and (i + 1 == len(params) or params[i + 1][1] != "po"):
+            out.append("/")
+    return ", ".join(out)
+
+
+def vals_text(params, prefix=""):
+    return ", ".join(("*" + n) if k == "va" else (f"*KV({n})" if k == "vk" else prefix + n) for n, k, _ in params)
+
+
+def first_param(kind):
+    """Name of the implicit first parameter (self / cls) of a holder, or None.  When the name
+    alphabet of a names-part callable claims that name for a declared parameter, the implicit
+    one is called zq_self instead (so that the plain call is a valid one)."""
+    _, role, names = split_kind(kind)
+    bk = base_kind(kind)
+    nat = "cls" if bk.startswith("classmethod") else ("self" if bk in ("method", "inst", "inst_slots", "boundmethod") else None)
+    if nat is not None and role in ("pk", "pk1", "ko", "ko1", "po") and nat in names:
+        return "zq_self"
+    return nat
+
+
+def sigvals(kind):
+    """-> (signature text without self/cls, expression list logged by the body, params | None)"""
+    holder, role, names = split_kind(kind)
+    if role is None:
+        return SIG, "x, y, k", None
+    ps = name_params(role, names)
+    return sig_text(ps), vals_text(ps), ps
+
+
 def source(kind, j: bool, ntc):
     """Source text of one callable kind.  j: explicit jaxtyped decorator present;
     ntc: None | 'above' | 'below' (relative to jaxtyped) | 'fn' (hooked: on the
-    function, the hook then adds jaxtyped beneath it) | 'cls' (on the class)."""
+    function, the hook then adds jaxtyped beneath it) | 'cls' (on the class) | 'late' (on the
+    function, after jaxtyped has wrapped it)."""
     cls_deco = f"{NTC}\n" if ntc == "cls" else ""
+    full_kind = kind
+    kind = holder_of(kind)
+    sig, vals, params = sigvals(full_kind)
+    fp = first_param(full_kind)
+    first = f"{fp}, " if fp else ""
     if kind in _LAZY_SET:
-        return lazy_source(kind, j, ntc)
+        return lazy_source(full_kind, j, ntc)
     if kind == "lambda":
         # a lambda cannot be annotated in its own syntax: the annotations are attached to
         # the function object before decoration
+        if params is None:
+            lam, ann = "x, y=DFLT, *, k=0", "dict(x=A, y=A, k=int)"
+        else:
+            lam, ann = sig_text(params, annotated=False), "{" + ", ".join(f"{n!r}: A" for n, _, _ in params) + "}"
         return (
-            "_l = lambda x, y=DFLT, *, k=0: BODY('f', x, y, k)\n"
-            "_l.__annotations__ = dict(x=A, y=A, k=int)\n"
+            f"_l = lambda {lam}: BODY('f', {vals})\n"
+            f"_l.__annotations__ = {ann}\n"
             "_l.__annotations__['return'] = A\n"
             + ("_l = no_type_check(_l)\n" if ntc == "below" else "")
             + ("f = jaxtyped(typechecker=TC)(_l)\n" if j else "f = _l\n")
             + ("f = no_type_check(f)\n" if ntc == "above" else "")
         )
     if kind == "def":
-        return _lines(_fn_level(j, ntc), "") + f"def f({SIG}) -> A:\n    return BODY('f', x, y, k)\n"
+        if ntc in ("late", "used", "used-above"):
+            return (
+                f"def f({sig}) -> A:\n    return BODY('f', {vals})\n_f = f\n"
+                + ("f = jaxtyped(typechecker=TC)(_f)\n" if j else "")
+                + ("try:\n    f(DFLT)\nexcept Exception:\n    pass\n" if ntc != "late" else "")
+                + ("no_type_check(f)\n" if ntc == "used-above" else "no_type_check(_f)\n")
+            )
+        return _lines(_fn_level(j, ntc), "") + f"def f({sig}) -> A:\n    return BODY('f', {vals})\n"
+    if kind in ("inst", "inst_slots"):
+        # the class carries a class-level annotation, as dataclass-like 'module' objects do
+        # (typing.get_type_hints, used at decoration, refuses an object without __annotations__)
+        head = "    __slots__ = ()\n    zq_tag: int\n" if kind == "inst_slots" else "    zq_tag: int = 0\n"
+        return (
+            f"{cls_deco}class F:\n{head}    def __call__({first}{sig}) -> A:\n        return BODY('call', {vals})\n"
+            + ("f = jaxtyped(typechecker=TC)(F())\n" if j else "f = F()\n")
+            + ("f = no_type_check(f)\n" if ntc == "above" else "")
+        )
+    if kind == "boundmethod":
+        return (
+            f"{cls_deco}class C:\n" + _lines([NTC] if ntc == "below" else [], "    ") + f"    def m({first}{sig}) -> A:\n        return BODY('m', {vals})\n"
+            + ("f = jaxtyped(typechecker=TC)(C().m)\n" if j else "f = C().m\n")
+            + ("f = no_type_check(f)\n" if ntc == "above" else "")
+        )
     if kind == "method":
-        return f"{cls_deco}class C:\n" + _lines(_fn_level(j, ntc), "    ") + f"    def m(self, {SIG}) -> A:\n        return BODY('m', x, y, k)\n"
+        return f"{cls_deco}class C:\n" + _lines(_fn_level(j, ntc), "    ") + f"    def m({first}{sig}) -> A:\n        return BODY('m', {vals})\n"
     if kind in ("classmethod_outer", "classmethod_inner", "staticmethod_outer", "staticmethod_inner"):
         desc, arr = kind.split("_")
-        first = "cls, " if desc == "classmethod" else ""
         name = "cm" if desc == "classmethod" else "sm"
         if arr == "outer":
             if ntc == "fn":
@@ -280,7 +434,7 @@ def source(kind, j: bool, ntc):
             decos = ([NTC] if ntc == "above" else []) + ([J] if j else []) + ([NTC] if ntc == "mid" else []) + [f"@{desc}"] + ([NTC] if ntc == "below" else [])
         else:
             decos = [f"@{desc}"] + _fn_level(j, ntc)
-        return f"{cls_deco}class C:\n" + _lines(decos, "    ") + f"    def {name}({first}{SIG}) -> A:\n        return BODY('{name}', x, y, k)\n"
+        return f"{cls_deco}class C:\n" + _lines(decos, "    ") + f"    def {name}({first}{sig}) -> A:\n        return BODY('{name}', {vals})\n"
     if kind in ("property_outer", "property_inner"):
         arr = kind.split("_")[1]
         if arr == "outer":
@@ -299,10 +453,15 @@ def source(kind, j: bool, ntc):
         )
     if kind == "dataclass":
         top = ([NTC] if ntc == "above" else []) + ([J] if j else []) + ([NTC] if ntc in ("below", "cls") else [])
+        if params is None:
+            fields, post = "    x: A\n    y: A = DFLT\n", "self.x, self.y"
+        else:
+            fields = "".join(f"    {n}: A{' = DFLT' if d else ''}\n" for n, _, d in params)
+            post = vals_text(params, prefix="self.")
         return (
             _lines(top, "")
-            + "@dataclass\nclass D:\n    x: A\n    y: A = DFLT\n"
-            + "    def __post_init__(self):\n        BODY('post', self.x, self.y)\n"
+            + f"@dataclass\nclass D:\n{fields}"
+            + f"    def __post_init__(self):\n        BODY('post', {post})\n"
         )
     raise HarnessError(f"unknown kind {kind}")
 
@@ -310,16 +469,20 @@ def source(kind, j: bool, ntc):
 def lazy_source(kind, j: bool, ntc):
     """coroutine function / generator function / async generator in one of six holders.
     Two body sections (logged separately) around a suspension point / a yield."""
+    sig, vals, _ = sigvals(kind)
+    fp = first_param(kind)
+    y_expr = "y" if split_kind(kind)[1] is None else "DFLT"
+    kind = holder_of(kind)
     fl, holder = kind.split("_", 1)
     cls_deco = f"{NTC}\n" if ntc == "cls" else ""
+    first = f"{fp}, " if fp else ""
     if holder == "def":
-        pre, ind, first, name, decos = "", "", "", "f", _fn_level(j, ntc)
+        pre, ind, name, decos = "", "", "f", _fn_level(j, ntc)
     elif holder == "method":
-        pre, ind, first, name, decos = f"{cls_deco}class C:\n", "    ", "self, ", "m", _fn_level(j, ntc)
+        pre, ind, name, decos = f"{cls_deco}class C:\n", "    ", "m", _fn_level(j, ntc)
     else:
         desc, arr = holder.split("_")
         pre, ind = f"{cls_deco}class C:\n", "    "
-        first = "cls, " if desc == "classmethod" else ""
         name = "cm" if desc == "classmethod" else "sm"
         if arr == "outer":
             if ntc not in (None, "below", "cls"):
@@ -329,15 +492,15 @@ def lazy_source(kind, j: bool, ntc):
             decos = [f"@{desc}"] + _fn_level(j, ntc)
     head = "def" if fl == "gen" else "async def"
     b = ind + "    "
-    body = f"{b}r = BODY('{name}', x, y, k)\n"
+    body = f"{b}r = BODY('{name}', {vals})\n"
     # `got`: what the driver sends in at the suspension point (logged by the second section)
     if fl == "coro":
         body += f"{b}got = await SUSP\n{b}BODY('{name}2', got)\n{b}return r\n"
     elif fl == "gen":
-        body += f"{b}got = yield r\n{b}BODY('{name}2', got)\n{b}yield y\n{b}return r\n"
+        body += f"{b}got = yield r\n{b}BODY('{name}2', got)\n{b}yield {y_expr}\n{b}return r\n"
     else:
-        body += f"{b}got = yield r\n{b}got2 = await SUSP\n{b}BODY('{name}2', got, got2)\n{b}yield y\n"
-    return pre + _lines(decos, ind) + f"{ind}{head} {name}({first}{SIG}) -> {LAZY_RET[fl]}:\n" + body
+        body += f"{b}got = yield r\n{b}got2 = await SUSP\n{b}BODY('{name}2', got, got2)\n{b}yield {y_expr}\n"
+    return pre + _lines(decos, ind) + f"{ind}{head} {name}({first}{sig}) -> {LAZY_RET[fl]}:\n" + body
 
 
 # --------------------------------------------------------------------------- batteries
@@ -404,6 +567,173 @@ F3 = {
 BATTERY = {"F1": F1, "F2": F2, "F3": F3}
 
 
+# --------------------------------------------------------------------------- names part: alphabet + batteries
+# With checking off the wrapper must hand (*args, **kwargs) to the function untouched, whatever the
+# NAMES of the keyword arguments are.  The alphabet: identifiers the wrapper machinery itself uses
+# (parameters / locals / closure variables of every code object compiled from the jaxtyping sources,
+# read at run time from the tree under test) plus a fixed list (conventional wrapper vocabulary).
+
+FIXED_NAMES = (
+    "fn", "args", "kwargs", "self", "cls", "typechecker", "wrapped_fn", "wrapped_fn_impl", "wrapped_fn_holder",
+    "memos", "bound", "signature", "full_signature", "param_signature", "x", "y", "out", "e", "name", "qualname",
+    "module", "full_fn", "param_fn", "output_name", "ret0", "ret1", "T0", "default0", "fn0", "func", "function",
+    "f", "g", "wrapped", "wrapper", "callable", "kw", "kwds", "kwarg", "a", "k", "arg", "arg0", "config", "jaxtyped",
+    "obj", "instance", "owner", "value", "arguments", "argmsg", "msg", "_", "__", "__tracebackhide__", "mcs",
+    "metacls", "klass", "this", "other", "key", "typ", "type", "result", "ret", "retval", "context", "frame",
+    "target", "call", "impl", "inner", "outer", "decorator", "checker", "hook", "disable", "jaxtyping_disable",
+    "no_type_check", "check", "partial", "params", "parameters", "p", "v", "i", "n", "cb", "callback", "method",
+)  # fmt: skip
+# names the generated sources use for themselves inside bodies / class bodies
+RESERVED_NAMES = frozenset({"A", "AG", "DFLT", "BODY", "KV", "SUSP", "TC", "Iterator", "AsyncIterator", "dataclass", "zq", "zq_a", "zq_kw", "zq_self", "zq_tag", "zq_unknown", "r", "got", "got2", "__class__"})
+NAME_CHUNK = 48
+# further keys of **kwargs (roles vk / va only): legal in a call through **{...}, impossible as parameter names
+ODD_KEYS = ("class", "def", "None", "a-b", "0", "fn ", "Fn", "\u00e9", "a.b", "lambda", "return", "*args")
+GROUP_ROLES = ("pk", "ko", "po", "vk", "va")
+SINGLE_ROLES = ("pk1", "ko1")
+
+
+def usable_name(n):
+    import keyword
+
+    return isinstance(n, str) and n.isidentifier() and not keyword.iskeyword(n) and n not in RESERVED_NAMES and not (n.startswith("__") and not n.endswith("__"))
+
+
+def source_names(scope):
+    """Parameter / local / closure variable names of every code object of the jaxtyping sources
+    under test ('decorator': _decorator.py only; 'package': every module).  -> (sorted names, files read, files failed)"""
+    import types
+
+    root = os.path.join(common.REPO, "jaxtyping")
+    try:
+        files = ["_decorator.py"] if scope == "decorator" else sorted(f for f in os.listdir(root) if f.endswith(".py"))
+    except OSError:
+        return [], 0, 1
+    names, ok, failed = set(), 0, 0
+    for f in files:
+        try:
+            with open(os.path.join(root, f), encoding="utf-8") as fh:
+                code = compile(fh.read(), f, "exec", dont_inherit=True)
+        except Exception:  # noqa: BLE001  (unreadable source: the fixed list still applies)
+            failed += 1
+            continue
+        ok += 1
+        stack = [code]
+        while stack:
+            c = stack.pop()
+            names.update(c.co_varnames, c.co_cellvars, c.co_freevars)
+            stack.extend(k for k in c.co_consts if isinstance(k, types.CodeType))
+    return sorted(n for n in names if usable_name(n)), ok, failed
+
+
+def name_alphabet(scope):
+    derived, ok, failed = source_names(scope)
+    fixed = [n for n in FIXED_NAMES if usable_name(n)]
+    allnames = fixed + [n for n in derived if n not in set(fixed)]
+    return allnames, dict(fixed=len(fixed), read_from_source=len(derived), total=len(allnames), source_files_read=ok, source_files_failed=failed, scope=scope)
+
+
+def name_chunks(names, size=NAME_CHUNK):
+    return [tuple(names[i : i + size]) for i in range(0, len(names), size)]
+
+
+def named_kind(holder, role, names):
+    return f"{holder}~{role}~{','.join(names)}"
+
+
+def holder_roles(holder):
+    if holder == "dataclass":
+        return ("pk", "pk1")
+    return GROUP_ROLES + SINGLE_ROLES
+
+
+_NB_CACHE = {}
+
+
+def name_battery(holder, role, names):
+    key = (holder, role, tuple(names))
+    if key not in _NB_CACHE:
+        if len(_NB_CACHE) > 256:
+            _NB_CACHE.clear()
+        _NB_CACHE[key] = _name_battery(holder, role, tuple(names))
+    return _NB_CACHE[key]
+
+
+def _name_battery(holder, role, names):
+    """Argument lists of a names-part callable.  Same format as F1; call names carry the NAME
+    under test so that violation keys say which one collided."""
+    lazy = holder in _LAZY_SET
+    has_ret = holder != "dataclass" and not lazy  # ill-typed results of lazy callables are not judged while ON
+    nat = first_param(named_kind(holder, "vk", names))  # the implicit self / cls, if any
+    b = {}
+    if not names:
+        raise HarnessError("empty name chunk")
+    n0 = names[0]
+    if role in ("pk", "ko"):
+        for n in names:
+            b[f"kw={n}"] = ("w", "x", (("X2",), {n: "Y2"}))
+            b[f"ill={n}"] = ("i", "x", (("X2",), {n: "Y3"}))
+        b["all"] = ("w", "x", (("X2",), {n: "Y2" for n in names}))
+        b["all_kw"] = ("w", "x", ((), dict({n: "Y2" for n in names}, zq="X2")))
+        b["ill_all"] = ("i", "x", (("X2",), {n: "Y3" for n in names}))
+        b["none"] = ("w", "x", (("X2",), {}))
+        b["r_bad"] = ("r", "bad", (("X2",), {n0: "Y2"})) if has_ret else None
+        b["e_raise"] = ("e", "raise", (("X2",), {n0: "Y2"}))
+        b["e_raise_ill"] = ("ei", "raise", (("X2",), {n0: "Y3"}))
+        b["n_unk"] = ("n", "x", (("X2",), {n0: "Y2", "zq_unknown": "Y2"}))
+        b["n_dup"] = ("n", "x", (("X2", "Y2"), {n0: "Y2"}))
+        b["n_missing"] = ("n", "x", ((), {n0: "Y2"}))
+    elif role == "po":
+        # a keyword whose name equals a positional-only parameter lands in **kwargs; while checking
+        # is ON inspect.Signature.bind mishandles exactly this (CPython; the known C07 finding):
+        # group x = judged only while checking is off
+        for n in names:
+            b[f"key={n}"] = ("x", "x", (("X2",), {n: "Y2"}))
+            b[f"illkey={n}"] = ("x", "x", (("S",), {n: "Y2"}))
+        b["all"] = ("x", "x", (("X2",), {n: "Y2" for n in names}))
+        b["pos"] = ("w", "x", (("X2", "Y2"), {}))
+        b["ill_pos"] = ("i", "x", (("X2", "Y3"), {}))
+        b["none"] = ("w", "x", (("X2",), {}))
+        b["e_raise"] = ("x", "raise", (("X2",), {n0: "Y2"}))
+        b["n_missing"] = ("n", "x", ((), {n0: "Y2"}))
+    elif role in ("vk", "va"):
+        for n in names:
+            clash = n == nat  # f(self=...) on a method: plain code raises TypeError itself
+            b[f"key={n}"] = ("n" if clash else "w", "x", (("X2",), {n: "Y2"}))
+            b[f"illkey={n}"] = ("n" if clash else "i", "x", (("S",), {n: "Y2"}))
+        free = [n for n in names if n != nat]
+        b["all"] = ("w", "x", (("X2",), {n: "Y2" for n in free}))
+        b["ill_all"] = ("x", "x", (("X2",), {n: "Y3" for n in free}))  # values of **kwargs: not every typechecker looks at them
+        b["none"] = ("w", "x", (("X2",), {}))
+        if free:
+            b["r_bad"] = ("r", "bad", (("X2",), {free[0]: "Y2"})) if has_ret else None
+            b["e_raise"] = ("e", "raise", (("X2",), {free[0]: "Y2"}))
+            if role == "vk":
+                b["n_dup"] = ("n", "x", (("X2",), {"zq": "X2", free[0]: "Y2"}))
+                b["all_kw"] = ("w", "x", ((), dict({n: "Y2" for n in free}, zq="X2")))
+            else:
+                b["two_pos"] = ("w", "x", (("X2", "Y2"), {free[0]: "Y2"}))
+    elif role == "pk1":
+        b["W"] = ("w", "x", ((), {n0: "X2", "zq": "Y2"}))
+        b["w_only"] = ("w", "x", ((), {n0: "X2"}))
+        b["w_pos"] = ("w", "x", (("X2", "Y2"), {}))
+        b["I"] = ("i", "x", ((), {n0: "X2", "zq": "Y3"}))
+        b["i_cls"] = ("i", "x", ((), {n0: "S"}))
+        b["R"] = ("r", "bad", ((), {n0: "X2"})) if has_ret else None
+        b["e_raise"] = ("e", "raise", ((), {n0: "X2"}))
+        b["N"] = ("n", "x", ((), {"zq": "Y2"}))
+        b["n_dup"] = ("n", "x", (("X2",), {n0: "X2"}))
+    elif role == "ko1":
+        b["W"] = ("w", "x", (("X2",), {n0: "Y2"}))
+        b["w_kw"] = ("w", "x", ((), {"zq": "X2", n0: "Y2"}))
+        b["I"] = ("i", "x", (("X2",), {n0: "Y3"}))
+        b["R"] = ("r", "bad", (("X2",), {n0: "Y2"})) if has_ret else None
+        b["e_raise"] = ("e", "raise", (("X2",), {n0: "Y2"}))
+        b["N"] = ("n", "x", (("X2",), {}))
+    else:
+        raise HarnessError(f"unknown role {role}")
+    return b
+
+
 # --------------------------------------------------------------------------- fixture
 
 _FX = None  # per-process fixture (hooked modules read _FX.names)
@@ -455,7 +785,8 @@ class Fx:
             # context probe: outside any jaxtyping context both are True; inside a
             # context pushed by a (not disabled) wrapper the second one is False
             probe = (isinstance(fx.P2, fx.B), isinstance(fx.P3, fx.B))
-            fx.log.append((tag, tuple(fx.token(v) for v in vals), probe))
+            by_id, token = fx.by_id, fx.token
+            fx.log.append((tag, tuple([by_id.get(id(v)) or token(v) for v in vals]), probe))
             m = fx.mode
             if m == "raise":
                 raise fx.EXC
@@ -478,16 +809,19 @@ class Fx:
             "Iterator": typing.Iterator,
             "AsyncIterator": typing.AsyncIterator,
             "SUSP": _Susp(),
+            "KV": lambda d: tuple(sorted(d)) + tuple(d[k] for k in sorted(d)),
         }
         self._plain = {}
 
     # -- canonical tokens -----------------------------------------------------------
     def token(self, v):
-        if v is None:
-            return "None"
         t = self.by_id.get(id(v))
         if t is not None:
             return t
+        if v is None:
+            return "None"
+        if isinstance(v, _Trace):
+            return ("trace",) + tuple(v)
         if dataclasses_is_instance(v):
             return ("inst", type(v).__qualname__, self.token(getattr(v, "x", None)), self.token(getattr(v, "y", None)))
         if isinstance(v, (int, str)):
@@ -525,30 +859,38 @@ class Fx:
 
     def plain(self, kind):
         if kind not in self._plain:
+            if len(self._plain) > 64:
+                self._plain = {k: v for k, v in self._plain.items() if "~" not in k}
             self._plain[kind] = self.exec_ns(source(kind, False, None), None)
         return self._plain[kind]
 
     # -- calls ----------------------------------------------------------------------
     def thunk(self, kind, ns, call):
         fam = family(kind)
-        spec = BATTERY[fam][call]
+        spec = battery_of(kind)[call]
         _, _, payload = spec
         o = self.objs
+        named_lazy = flavour(kind) if "~" in kind else None
         kind = base_kind(kind)
         if fam in ("F1", "F3"):
             args, kwargs = payload
             a = tuple(o[n] for n in args)
             kw = {k: (o[v] if isinstance(v, str) else v) for k, v in kwargs.items()}
-            if kind == "def":
-                return lambda: ns["f"](*a, **kw)
-            if kind == "method":
-                return lambda: ns["C"]().m(*a, **kw)
-            if kind.startswith("classmethod"):
-                return lambda: ns["C"].cm(*a, **kw)
-            if kind.startswith("staticmethod"):
-                return lambda: ns["C"].sm(*a, **kw)
-            if kind == "dataclass":
-                return lambda: ns["D"](*a, **kw)
+            if kind in ("def", "inst", "inst_slots", "boundmethod"):
+                t = lambda: ns["f"](*a, **kw)  # noqa: E731
+            elif kind == "method":
+                t = lambda: ns["C"]().m(*a, **kw)  # noqa: E731
+            elif kind.startswith("classmethod"):
+                t = lambda: ns["C"].cm(*a, **kw)  # noqa: E731
+            elif kind.startswith("staticmethod"):
+                t = lambda: ns["C"].sm(*a, **kw)  # noqa: E731
+            elif kind == "dataclass":
+                t = lambda: ns["D"](*a, **kw)  # noqa: E731
+            else:
+                raise HarnessError(f"no thunk for {kind} {call}")
+            if named_lazy:
+                return lambda: self.drive(named_lazy, t())
+            return t
         else:
             act = payload[0]
             if act == "get":
@@ -566,6 +908,21 @@ class Fx:
                 extra = tuple(o[n] for n in payload[1])
                 return lambda: ns["C"].p.fset(ns["C"](), *extra)
         raise HarnessError(f"no thunk for {kind} {call}")
+
+    def drive(self, fl, obj):
+        """Drive a coroutine / generator / async generator to its end by hand; the body log
+        accumulates in self.log as usual.  An exception raised AT THE CALL never gets here."""
+        live = Live(self, fl, obj)
+        events = [("created", type(obj).__name__)]
+        try:
+            while not live.done:
+                events.append(live.step())
+                if len(events) > MAX_STEPS:
+                    raise HarnessError(f"lazy object not exhausted after {MAX_STEPS} steps")
+        finally:
+            if not live.done:
+                live.close()
+        return _Trace(events)
 
     def observe(self, thunk, mode):
         self.log.clear()
@@ -608,6 +965,11 @@ class Fx:
         return out
 
 
+class _Trace(tuple):
+    """Step events of a lazy object driven to exhaustion (names part: one observation = the call
+    plus the whole life of the object it returned)."""
+
+
 class _Susp:
     """Awaitable with one suspension point: the driver sees the token 'SUSP'."""
 
@@ -630,9 +992,12 @@ def get_fx():
 class World:
     """Temporary module forest + import hooks for the 'hook' delivery."""
 
-    def __init__(self, fx, need_hook=True):
+    def __init__(self, fx, need_hook=True, extra=()):
+        """extra: further (typechecker, kind, ntc) triples to provide hooked modules for
+        (names part: the kind string carries the parameter names)."""
         self.fx = fx
         self.need_hook = need_hook
+        self.extra = tuple(extra)
         self.dir = None
         self.hooks = []
         self.names = {}
@@ -652,6 +1017,14 @@ class World:
                         f.write(HOOK_HDR + source(kind, False, ntc))
                     self.names[(t, kind, ntc)] = name
                     per_tc[t].append(name)
+        for i, (t, kind, ntc) in enumerate(self.extra):
+            if (t, kind, ntc) in self.names:
+                continue
+            name = f"{tag}_{t}_x{i}_{ntc or 'none'}"
+            with open(os.path.join(self.dir, name + ".py"), "w") as f:
+                f.write(HOOK_HDR + source(kind, False, ntc))
+            self.names[(t, kind, ntc)] = name
+            per_tc[t].append(name)
         sys.path.insert(0, self.dir)
         importlib.invalidate_caches()
         for t in TCS:
@@ -699,9 +1072,26 @@ def execute(fx, world, combo, steps, predecorate=True):
     """
     delivery, kind, tcname, ntc = combo
     plain = fx.plain(kind)
-    subjects = [world.decorate(combo)] if predecorate else []
-    fam = BATTERY[family(kind)]
+    fam = battery_of(kind)
     recs = []
+
+    def decorate(step):
+        """Decoration itself raising (the plain source compiles and runs): recorded, judged by the
+        caller when checking is off at that moment; the subject is then skipped by later calls."""
+        try:
+            return world.decorate(combo)
+        except HarnessError:
+            raise
+        except Exception as e:  # noqa: BLE001
+            recs.append(
+                dict(step=step, subj=len(subjects), call="DECORATE", group="dec", eq=False, eq_noprobe=False, tce=False, cause_none=None,
+                     d=f"decoration raised {type(e).__name__}: {str(e)[:200]}", p="the same source without jaxtyped compiles and runs", exc=type(e).__name__)
+            )  # fmt: skip
+            return None
+
+    subjects = []
+    if predecorate:
+        subjects.append(decorate(0))
     for i, st in enumerate(steps):
         if st[0] == "update":
             try:
@@ -725,7 +1115,7 @@ def execute(fx, world, combo, steps, predecorate=True):
                 )
                 break  # the rest of the script would run from a state the model does not describe
         elif st[0] == "decorate":
-            subjects.append(world.decorate(combo))
+            subjects.append(decorate(i))
         else:
             for call in st[1]:
                 spec = fam[call]
@@ -733,6 +1123,8 @@ def execute(fx, world, combo, steps, predecorate=True):
                     continue
                 group, mode, _ = spec
                 for si, ns in enumerate(subjects):
+                    if ns is None:
+                        continue
                     p = fx.observe(fx.thunk(kind, plain, call), mode)
                     d = fx.observe(fx.thunk(kind, ns, call), mode)
                     recs.append(
@@ -745,19 +1137,28 @@ def execute(fx, world, combo, steps, predecorate=True):
                             eq_noprobe=(d[0] == p[0] and [e[:2] for e in d[1]] == [e[:2] for e in p[1]]),
                             tce=(d[0] == ("exc", "TypeCheckError")),
                             cause_none=d[2],
-                            d=repr((d[0], d[1])),
-                            p=repr((p[0], p[1])),
+                            d=(d[0], d[1]),  # text on demand: txt()
+                            p=(p[0], p[1]),
                             body_runs_plain=len(p[1]),
                         )
                     )
     return recs
 
 
-def judge(rec, disabled: bool, ntc):
-    """-> (reason | None, nontrivial-if-disabled)."""
+def txt(x):
+    return x if isinstance(x, str) else repr(x)
+
+
+def judge(rec, disabled: bool, ntc, judge_enabled=True):
+    """-> reason | None.  judge_enabled=False (typechecker=None: nothing checks): an ill-typed call
+    made while checking is ON is not required to raise."""
     if rec["group"] == "u":
         return f"update-{rec['value']}-raised-{rec['exc']}"
     off = disabled or ntc is not None
+    if rec["group"] == "dec":
+        # decorating while checking is off must leave working code behind (the undecorated source
+        # does); a decoration failing while checking is ON is not this property's business
+        return f"decoration-raised-{rec['exc']}" if off else None
     if off:
         if not rec["eq"]:
             return ("ntc-differs" if (ntc is not None and not disabled) else "disabled-differs")
@@ -766,14 +1167,20 @@ def judge(rec, disabled: bool, ntc):
     if g in ("w", "e"):
         if not rec["eq_noprobe"]:
             return "enabled-welltyped-differs"
-    elif g in ("i", "r", "ei"):
+    elif g in ("i", "r", "ei") and judge_enabled:
         if not rec["tce"]:
             return "enabled-illtyped-not-TypeCheckError"
     return None  # 'n' while enabled: statement silent
 
 
 def combo_str(combo):
-    return f"{combo[0]}:{combo[1]}:{combo[2]}:ntc-{combo[3] or 'none'}"
+    holder, role, names = split_kind(combo[1])
+    kind = holder if role is None else (f"{holder}~{role}~{names[0]}" if role in SINGLE_ROLES else f"{holder}~{role}")
+    return f"{combo[0]}:{kind}:{combo[2]}:ntc-{combo[3] or 'none'}"
+
+
+def judges_enabled(combo):
+    return combo[2] != "none"
 
 
 # --------------------------------------------------------------------------- part A
@@ -840,7 +1247,7 @@ def run_history(fx, world, combo, ops, stack):
     out = []
     for r in recs:
         dis = flags[r["step"]]
-        reason = judge(r, dis, ntc)
+        reason = judge(r, dis, ntc, judges_enabled(combo))
         off = dis or ntc is not None
         nontrivial = (off and r["group"] in ("i", "r", "n")) or (
             not off and r["group"] in ("i", "r") and (evers[r["step"]] or dec_flags[r["subj"]])
@@ -882,7 +1289,7 @@ def _job_hist(job):
                             ).to_json()
                         )
                     if nontrivial and len(samples) < 2 and len(ops) >= 3 and "ON" in ops:
-                        samples.append(dict(part="hist", combo=combo_str(combo), ops="-".join(ops), step=r["step"], subj=r["subj"], disabled=dis, decorated=r["d"], undecorated=r["p"]))
+                        samples.append(dict(part="hist", combo=combo_str(combo), ops="-".join(ops), step=r["step"], subj=r["subj"], disabled=dis, decorated=txt(r["d"]), undecorated=txt(r["p"])))
     finally:
         fx.restore()
     return dict(stats=st, states=sorted(map(repr, states)), viols=viols + fx.take_anomalies(), samples=samples)
@@ -928,37 +1335,61 @@ def script_flags(script, initial=False):
     return out
 
 
-def expand(script, kind):
-    names = list(BATTERY[family(kind)])
-    return [("call", names) if (s[0] == "call" and s[1] == "ALL") else s for s in script]
+def expand(script, kind, ntc=None, initial=False):
+    """Replace ("call", "ALL" | "SUB") by the battery of the kind.  Names part: at steps where
+    checking is ON (and at SUB steps) the per-name calls are made for the first name only (the names
+    are an input class of the switched-OFF path; with checking on every ill-typed call costs one
+    typechecker decoration per parameter inside jaxtyping's error report)."""
+    names = [c for c, spec in battery_of(kind).items() if spec is not None]
+    if "~" not in kind or split_kind(kind)[1] in SINGLE_ROLES:
+        return [("call", names) if (s[0] == "call" and s[1] in ("ALL", "SUB")) else s for s in script]
+    n0 = split_kind(kind)[2][0]
+    subset = [c for c in names if "=" not in c or c.split("=", 1)[1] == n0]
+    on_min = [c for c in subset if "=" in c or c in ("none", "pos", "ill_pos", "e_raise")]
+    flags = script_flags(script, initial)
+    out = []
+    for i, s in enumerate(script):
+        if s[0] == "call" and s[1] in ("ALL", "SUB"):
+            off = flags[i] or ntc is not None
+            s = ("call", (names if s[1] == "ALL" else subset) if off else on_min)
+        out.append(s)
+    return out
 
 
 def run_matrix_case(fx, world, combo, sname):
     script = SCRIPTS[sname]
     fx.restore()
     try:
-        recs = execute(fx, world, combo, expand(script, combo[1]), predecorate=False)
+        recs = execute(fx, world, combo, expand(script, combo[1], combo[3]), predecorate=False)
     finally:
         fx.restore()
     flags = script_flags(script)
     ntc = combo[3]
+    je = judges_enabled(combo)
+    named = "~" in combo[1]
     out = []
     for r in recs:
         dis = flags[r["step"]]
-        reason = judge(r, dis, ntc)
+        reason = judge(r, dis, ntc, je)
         off = dis or ntc is not None
         earlier_on = any(flags[: r["step"]])
-        nontrivial = (off and r["group"] in ("i", "r", "n", "e", "ei", "x")) or (not off and r["group"] in ("i", "r", "ei") and earlier_on)
+        # names part: every call made while checking is off counts (the keyword NAMES are the input
+        # class under test; an ignored switch shows in the context probe of every body log)
+        nontrivial = (off and (named or r["group"] in ("i", "r", "n", "e", "ei", "x"))) or (not off and je and r["group"] in ("i", "r", "ei") and earlier_on)
         out.append((r, dis, reason, nontrivial))
     return out
 
 
+MATRIX_TCS = TCS + ("none",)  # 'none': jaxtyped(typechecker=None), the old-style wrapper (a binding context only)
+
+
 def matrix_combos():
     out = []
-    for t in TCS:
+    for t in MATRIX_TCS:
         for kind in FAMILY:
             for ntc in (None,) + NTC_PLACEMENTS[("deco", kind)]:
                 out.append(("deco", kind, t, ntc))
+    for t in TCS:
         for kind in HOOK_KINDS:
             for ntc in (None,) + NTC_PLACEMENTS[("hook", kind)]:
                 out.append(("hook", kind, t, ntc))
@@ -973,7 +1404,7 @@ def _job_matrix(job):
         with World(fx) as w:
             for combo in job["combos"]:
                 combo = tuple(combo)
-                for sname in SCRIPTS:
+                for sname in MATRIX_SCRIPTS:
                     st["matrix_cases"] += 1
                     for r, dis, reason, nontrivial in run_matrix_case(fx, w, combo, sname):
                         st["evaluations"] += 1
@@ -988,7 +1419,148 @@ def _job_matrix(job):
                                 ).to_json()
                             )
                         if nontrivial and r["group"] == "n" and len(samples) < 1:
-                            samples.append(dict(part="matrix", combo=combo_str(combo), script=sname, step=r["step"], call=r["call"], disabled=dis, decorated=r["d"], undecorated=r["p"]))
+                            samples.append(dict(part="matrix", combo=combo_str(combo), script=sname, step=r["step"], call=r["call"], disabled=dis, decorated=txt(r["d"]), undecorated=txt(r["p"])))
+    finally:
+        fx.restore()
+    return dict(stats=st, viols=viols + fx.take_anomalies(), samples=samples)
+
+
+# --------------------------------------------------------------------------- part N (names)
+
+# ("call", "ALL"): the whole battery where checking is off, the reduced one where it is on;
+# ("call", "SUB"): the reduced battery (per-name calls for the first name of the chunk only)
+SCRIPTS["n-after"] = [
+    ("decorate",),
+    ("call", "ALL"),
+    ("update", D_ITEM, True),
+    ("call", "ALL"),
+    ("update", D_ITEM, "false"),
+    ("call", "ALL"),
+]
+SCRIPTS["n-before"] = [
+    ("update", D_ITEM, "1"),
+    ("decorate",),
+    ("call", "ALL"),
+    ("update", D_ITEM, False),
+    ("call", "ALL"),
+    ("update", D_ITEM, "TRUE"),
+    ("call", "SUB"),
+]
+# no_type_check present: checking is off whatever the switch says
+SCRIPTS["n-ntc"] = [
+    ("decorate",),
+    ("call", "ALL"),
+    ("update", D_ITEM, True),
+    ("call", "SUB"),
+    ("update", D_ITEM, False),
+    ("call", "SUB"),
+]
+SCRIPTS["n-ntc-before"] = [
+    ("update", D_ITEM, True),
+    ("decorate",),
+    ("call", "SUB"),
+    ("update", D_ITEM, False),
+    ("call", "ALL"),
+]
+
+
+def name_scripts(ntc):
+    return ("n-after", "n-before") if ntc is None else ("n-ntc", "n-ntc-before")
+
+
+MATRIX_SCRIPTS = ("after", "before")
+NAME_HOLDERS_DECO = (
+    "def", "method", "classmethod_outer", "classmethod_inner", "staticmethod_outer", "staticmethod_inner", "dataclass", "lambda",
+    "inst", "inst_slots", "boundmethod", "coro_def", "gen_def", "agen_def", "coro_method", "gen_classmethod_outer", "agen_staticmethod_inner",
+)  # fmt: skip
+NAME_HOLDERS_HOOK = ("def", "method", "classmethod_inner", "staticmethod_inner", "dataclass", "gen_def")
+SINGLE_HOLDERS_QUICK = ("def",)
+CHILD_NAME_HOLDERS = ("def", "method")
+CHILD_NAME_TCS = ("typeguard", "none")
+
+
+NAME_HOLDERS_DECO_QUICK = tuple(h for h in NAME_HOLDERS_DECO if h not in ("coro_method", "gen_classmethod_outer", "agen_staticmethod_inner"))
+NAME_HOLDERS_HOOK_QUICK = ("def", "method")
+NAME_BEARTYPE_HOLDERS_QUICK = ("def", "method", "inst_slots")
+SINGLE_HOLDERS_THOROUGH = ("def", "method", "classmethod_outer", "staticmethod_inner", "dataclass", "lambda", "inst", "boundmethod", "coro_def", "gen_def")
+
+
+def names_combos(names, quick):
+    """-> (grouped combos, single-name combos).  Grouped: every chunk of the alphabet x role x
+    holder x typechecker (typeguard / beartype / None) x no_type_check placement, explicit
+    decorator and import hook.  Single: one name as THE required parameter.
+    quick: the switched-off path does not depend on the typechecker beyond new-style / old-style
+    (typechecker=None) wrapper, so beartype is kept for three holders only; fewer lazy / hooked holders."""
+    chunks = name_chunks(names)
+    grouped, single = [], []
+    plan = (
+        ("deco", NAME_HOLDERS_DECO_QUICK if quick else NAME_HOLDERS_DECO, MATRIX_TCS),
+        ("hook", NAME_HOLDERS_HOOK_QUICK if quick else NAME_HOLDERS_HOOK, TCS),
+    )
+    for delivery, holders, tcs in plan:
+        for h in holders:
+            placements = (None,) + ntc_placements(delivery, h)
+            h_tcs = tuple(t for t in tcs if not (quick and t == "beartype" and (delivery == "hook" or h not in NAME_BEARTYPE_HOLDERS_QUICK)))
+            for role in holder_roles(h):
+                if role in GROUP_ROLES:
+                    for ch in chunks + ([ODD_KEYS] if role in ("vk", "va") else []):
+                        for t in h_tcs:
+                            for ntc in placements:
+                                grouped.append((delivery, named_kind(h, role, ch), t, ntc))
+                elif delivery == "deco" and h in (SINGLE_HOLDERS_QUICK if quick else SINGLE_HOLDERS_THOROUGH):
+                    for n in names:
+                        for t in (tuple(t for t in h_tcs if t != "beartype") if quick else h_tcs):
+                            for ntc in (tuple(p for p in placements if p not in ("used", "used-above")) if quick else placements):
+                                single.append((delivery, named_kind(h, role, (n,)), t, ntc))
+    return grouped, single
+
+
+CHILD_NONE_KINDS = ("def", "method", "inst", "inst_slots", "boundmethod")
+
+
+def child_matrix_combos():
+    """The environment children run the matrix with typechecker=None for five kinds only."""
+    return [c for c in matrix_combos() if c[2] != "none" or c[1] in CHILD_NONE_KINDS]
+
+
+def child_name_combos(names):
+    return [("deco", named_kind(h, role, ch), t, None) for h in CHILD_NAME_HOLDERS for role in GROUP_ROLES for ch in name_chunks(names) for t in CHILD_NAME_TCS]
+
+
+def names_key(combo, sname, r, reason):
+    return f"C19:names:{combo_str(combo)}:{sname}:step{r['step']}:{r['call']}:{reason}"
+
+
+def _job_names(job):
+    fx = get_fx()
+    st = dict(evaluations=0, nontrivial=0, names_cases=0, names_decorations=0, names_calls_off=0, names_keyword_names_off=0)
+    viols, samples = [], []
+    combos = [tuple(c) for c in job["combos"]]
+    extra = [(c[2], c[1], c[3]) for c in combos if c[0] == "hook"]
+    try:
+        with World(fx, need_hook=bool(extra), extra=extra) as w:
+            for combo in combos:
+                nkw = {c: len(spec[2][1]) for c, spec in battery_of(combo[1]).items() if spec is not None}
+                for sname in name_scripts(combo[3]):
+                    st["names_cases"] += 1
+                    st["names_decorations"] += 1
+                    for r, dis, reason, nontrivial in run_matrix_case(fx, w, combo, sname):
+                        st["evaluations"] += 1
+                        st["nontrivial"] += bool(nontrivial)
+                        if dis or combo[3] is not None:
+                            st["names_calls_off"] += 1
+                            st["names_keyword_names_off"] += nkw.get(r["call"], 0)
+                        if reason and len(viols) < 12:
+                            viols.append(
+                                Violation(
+                                    key=names_key(combo, sname, r, reason),
+                                    what=f"{combo_str(combo)} (parameter / keyword names from the wrapper's own vocabulary), switch toggled {sname} decoration, step {r['step']} "
+                                    f"(switch {'on=disabled' if dis else 'off=checking'}): call {r['call']}: decorated {txt(r['d'])[:600]} vs undecorated {txt(r['p'])[:600]} [{reason}]",
+                                    replay=dict(part="names", combo=list(combo), script=sname, step=r["step"], call=r["call"]),
+                                ).to_json()
+                            )
+                        if nontrivial and dis and r["call"] in ("kw=fn", "key=kwargs") and len(samples) < 1:
+                            samples.append(dict(part="names", combo=combo_str(combo), script=sname, step=r["step"], call=r["call"], disabled=dis, decorated=txt(r["d"])[:400], undecorated=txt(r["p"])[:400]))
     finally:
         fx.restore()
     return dict(stats=st, viols=viols + fx.take_anomalies(), samples=samples)
@@ -1557,9 +2129,11 @@ def _child_main():
         fx = get_fx()
         out = {"import": "ok", "flags": list(read_flags(fx.config)), "cases": {}}
         with World(fx) as w:
-            for combo in matrix_combos():
+            env_flag = out["flags"][0]
+            out["names"] = name_alphabet("decorator")[1]
+            for combo in child_matrix_combos() + child_name_combos(name_alphabet("decorator")[0]):
                 try:
-                    recs = execute(fx, w, combo, expand(CHILD_SCRIPT, combo[1]), predecorate=False)
+                    recs = execute(fx, w, combo, expand(CHILD_SCRIPT, combo[1], combo[3], initial=bool(env_flag)), predecorate=False)
                 finally:
                     # leave the environment-provided value for the next combo
                     try:
@@ -1569,6 +2143,8 @@ def _child_main():
                     if getattr(fx.config, D_ITEM) is not out["flags"][0]:
                         setattr(fx.config, D_ITEM, out["flags"][0])
                 keep = ("step", "call", "group", "eq", "eq_noprobe", "tce", "d", "p", "exc", "value")
+                for r in recs:  # keep the report small: texts only where the two sides differ
+                    r["d"], r["p"] = ("(equal)", "(equal)") if r["eq"] else (txt(r["d"]), txt(r["p"]))
                 out["cases"][json.dumps(combo)] = [{k: r[k] for k in keep if k in r} for r in recs]
             # lazy callables under the environment-provided state
             out["lazy"] = []
@@ -1630,10 +2206,10 @@ def judge_child(envset, rep):
         for r in recs:
             step, call, group, d, p = r["step"], r["call"], r["group"], r["d"], r["p"]
             dis = flags[step]
-            reason = judge(r, dis, combo[3])
+            reason = judge(r, dis, combo[3], judges_enabled(combo))
             ev += 1
             off = dis or combo[3] is not None
-            if (off and group in ("i", "r", "n", "e", "ei", "x")) or (not off and group in ("i", "r", "ei") and any(flags[:step])):
+            if (off and ("~" in combo[1] or group in ("i", "r", "n", "e", "ei", "x"))) or (not off and judges_enabled(combo) and group in ("i", "r", "ei") and any(flags[:step])):
                 nt += 1
             if reason:
                 bad.append(
@@ -1714,7 +2290,7 @@ def _job(job):
 
 
 def _job_dispatch(job):
-    return {"hist": _job_hist, "matrix": _job_matrix, "update": _job_update, "env": _job_env, "dc": _job_dc, "lazy-hist": _job_lazy_hist, "lazy-matrix": _job_lazy_matrix}[job["part"]](job)
+    return {"hist": _job_hist, "matrix": _job_matrix, "update": _job_update, "env": _job_env, "dc": _job_dc, "names": _job_names, "lazy-hist": _job_lazy_hist, "lazy-matrix": _job_lazy_matrix}[job["part"]](job)
 
 
 HIST_COMBOS_QUICK = [
@@ -1736,6 +2312,10 @@ HIST_COMBOS_EXTRA = [
     ("hook", "method", None),
     ("hook", "dataclass", None),
     ("deco", "lambda", None),
+    ("deco", "inst", "cls"),
+    ("deco", "inst_slots", None),
+    ("deco", "boundmethod", "cls"),
+    ("deco", "def", "late"),
 ]
 LAZY_HIST_QUICK = [
     ("deco", "coro_def", None),
@@ -1801,6 +2381,12 @@ def build_jobs(ctx):
     for idx in common.shards(len(lmc), 8, ctx.seed):
         jobs.append(dict(part="lazy-matrix", combos=[list(lmc[i]) for i in idx]))
     jobs.append(dict(part="dc"))
+    # names part: the alphabet is read from the tree under test (plus the fixed list)
+    alphabet, alpha_info = name_alphabet("decorator" if ctx.quick else "package")
+    n_grouped, n_single = names_combos(alphabet, ctx.quick)
+    for lst, k in ((n_grouped, 32 if ctx.quick else 64), (n_single, 16 if ctx.quick else 64)):
+        for idx in common.shards(len(lst), k, ctx.seed):
+            jobs.append(dict(part="names", combos=[list(lst[i]) for i in idx]))
     vfull = [enc_value(v) for v in values_full()]
     vcore = [enc_value(v) for v in VALUES_CORE]
     # item-name casings: every casing of the short name; bounded family of the long one
@@ -1827,6 +2413,28 @@ def build_jobs(ctx):
         env_cases=len(env_cases()),
         item_casings={D_ITEM: len(d_all), S_ITEM: len(s_near)},
         switch_values=len(vfull),
+        names=dict(
+            alphabet=alpha_info,
+            chunk_size=NAME_CHUNK,
+            odd_kwargs_keys=list(ODD_KEYS),
+            chunks=len(name_chunks(alphabet)),
+            grouped_combos=len(n_grouped),
+            single_name_combos=len(n_single),
+            roles=dict(
+                pk="every name of a chunk an optional positional-or-keyword parameter, passed by keyword (one at a time, all at once)",
+                ko="... a keyword-only parameter",
+                po="... a positional-only parameter whose name is ALSO passed as a key of **kwargs",
+                vk="the names are keys of **kwargs of f(zq, **kw)",
+                va="... of f(*a, **kw)",
+                pk1="ONE name, the required first parameter, passed by keyword",
+                ko1="ONE name, a required keyword-only parameter",
+            ),
+            holders_explicit=list(NAME_HOLDERS_DECO_QUICK if ctx.quick else NAME_HOLDERS_DECO),
+            holders_hooked=list(NAME_HOLDERS_HOOK_QUICK if ctx.quick else NAME_HOLDERS_HOOK),
+            single_name_holders=list(SINGLE_HOLDERS_QUICK if ctx.quick else SINGLE_HOLDERS_THOROUGH),
+            environment_children=dict(holders=list(CHILD_NAME_HOLDERS), typecheckers=list(CHILD_NAME_TCS), combos_per_child=len(child_name_combos(name_alphabet("decorator")[0]))),
+            names=alphabet,
+        ),
     )
     return jobs, info
 
@@ -1844,6 +2452,8 @@ def _job_sort_key(job):
         return (p, json.dumps(job["combos"][0]), False, 0, 0)
     if p == "dc":
         return (p, "", False, 0, 0)
+    if p == "names":
+        return (p, json.dumps(job["combos"][0]), False, 0, 0)
     if p == "update":
         return (p, job["item"] + ":" + job["names"][0], bool(job.get("behaviour")), 0, 0)
     return (p, json.dumps(job["env"], sort_keys=True), False, 0, 0)
@@ -1880,7 +2490,7 @@ def run(ctx):
     stats["evaluations"] += n_none
     stats["nontrivial"] += n_none
     per_part["none"] = dict(evaluations=n_none, nontrivial=n_none, jobs=1)
-    picked = [x for p in ("hist", "matrix", "lazy-hist", "lazy-matrix", "update", "env") for x in by_part.get(p, [])[:2 if p in ("hist", "update") else 1]] + s_none
+    picked = [x for p in ("hist", "matrix", "names", "lazy-hist", "lazy-matrix", "update", "env") for x in by_part.get(p, [])[:2 if p in ("hist", "update") else 1]] + s_none
     if stats.get("stack_cause_inconsistent"):
         notes = [f"remove_typechecker_stack: {stats['stack_cause_inconsistent']} TypeCheckErrors whose __cause__ did not follow the switch (not part of the statement; not judged)"]
     else:
@@ -1895,7 +2505,8 @@ def run(ctx):
         "(the call, or one step of driving the returned coroutine / generator / async generator) of one object of one history). Non-trivial = the outcome "
         "would differ if the switch were ignored: a call made while checking is off (switch or no_type_check) whose arguments are ill-typed, "
         "non-binding, produce an ill-typed return or make the body raise; an ill-typed call made after checking was switched back on or on a callable "
-        "decorated while off; an update that must flip the flag or must be rejected",
+        "decorated while off; an update that must flip the flag or must be rejected; names part: every call made while checking is off (the input class under test is the NAME of the keyword "
+        "arguments; an ignored switch shows in the context probe of every body log)",
         exhaustive=True,
         samples=picked,
         per_part=per_part,
@@ -1904,6 +2515,12 @@ def run(ctx):
         decorations=stats.get("decorations", 0),
         abstract_states_reached=len(states),
         matrix_cases=stats.get("matrix_cases", 0),
+        names=dict(
+            info["names"],
+            script_runs=stats.get("names_cases", 0),
+            calls_made_while_checking_off=stats.get("names_calls_off", 0),
+            keyword_arguments_passed_while_off=stats.get("names_keyword_names_off", 0),
+        ),
         config_updates=stats.get("updates", 0),
         behavioural_probes=stats.get("behavioural_probes", 0),
         dontcare_updates=stats.get("dontcare_updates", 0),
@@ -1927,10 +2544,16 @@ def run(ctx):
             hooked_async_def_illtyped_calls=dict(observed=stats.get("lazy_hook_async_objects", 0), checked_by_the_hook=stats.get("lazy_hook_async_checked", 0)),
         ),
         bounds=f"histories: all sequences of length <= {info['history_max_len']} over {list(OPS)} ({info['histories_per_combo']} per combination; "
-        "thorough adds 12 further combinations at length <= 4), each started from one callable decorated while enabled; "
+        f"thorough adds {2 * len(HIST_COMBOS_EXTRA)} further combinations at length <= 4), each started from one callable decorated while enabled; "
         f"lazy callables: all sequences of length <= {info['lazy_history_max_len']} over {list(LOPS)} ({info['lazy_histories_per_combo']} per combination by length bound; one C makes {len(LAZY_HIST_CALLS)} objects: calls {list(LAZY_HIST_CALLS)}; S drives every live object one step), "
         f"each from a callable decorated while enabled and while disabled, {len(info['lazy_history_combos'])} combinations; lazy matrix: {info['lazy_matrix_combos']} combinations "
         f"({len(LAZY_KINDS)} kinds x typeguard/beartype/typechecker=None x no_type_check placements, + hooked) x {len(LAZY_TEMPLATES)} switch-timing templates x {len(F1)} argument lists; "
+        f"matrix: {info['matrix_combos']} combinations (13 kinds incl. callable instance / __slots__ instance / bound method x typeguard/beartype/typechecker=None x no_type_check placements incl. 'late' = marking the function "
+        f"after it was wrapped and 'cls' = marking the class of a callable instance, + hooked) x 2 switch-timing scripts x the argument battery; "
+        f"names: alphabet of {info['names']['alphabet']['total']} identifiers ({info['names']['alphabet']['fixed']} fixed + {info['names']['alphabet']['read_from_source']} parameter/local/closure names read from "
+        f"{info['names']['alphabet']['source_files_read']} jaxtyping source file(s), scope {info['names']['alphabet']['scope']}) in chunks of {NAME_CHUNK}: {info['names']['grouped_combos']} grouped combinations "
+        f"(holder x role pk/ko/po/vk/va x chunk x typechecker x no_type_check placement; explicit + hooked) + {info['names']['single_name_combos']} single-name combinations (roles pk1/ko1), "
+        "each run through 2 switch-timing scripts; while checking is off EVERY name is passed by keyword (well-typed and ill-typed, one at a time and all at once), while on only the first name of a chunk; "
         f"item names: all {info['item_casings'][D_ITEM]} letter-casings of jaxtyping_disable, {info['item_casings'][S_ITEM]} casings of "
         "jaxtyping_remove_typechecker_stack (<= 2 letters flipped from all-lower / all-upper, alternating, title: 2^31 is out of reach); "
         f"{info['switch_values']} switch values incl. every casing of true/false; environment: {info['env_cases']} subprocesses",
@@ -1951,6 +2574,9 @@ def run(ctx):
         + [
             "don't-care: non-bool 0/1/1.0/0.0 as switch value (accepted-as-bool or ValueError both allowed); item names not in lower case may also be rejected with ValueError; "
             "non-binding calls while checking is ON; no_type_check applied to a classmethod/staticmethod/property OBJECT or to a dataclass (Python marks no function there); "
+            "names part: while checking is ON a keyword whose name equals a positional-only parameter (role po: inspect.Signature.bind mishandles it, the known C07 finding) and ill-typed VALUES of **kwargs "
+            "(not every typechecker looks at them) are not judged - while OFF both must equal plain code; with typechecker=None an ill-typed call while ON is not required to raise (nothing checks); "
+            "decorating a callable instance whose class has no class-level annotations fails at decoration (typing.get_type_hints refuses it, switch on or off): outside the alphabet, the instance kinds carry one; "
             "old-style '@jaxtyped @typechecker' (the typechecker keeps checking by itself) is outside the alphabet; typechecker=None is covered by the small 'none' part "
             "and as a third 'typechecker' of the lazy kinds; lazy callables: an ill-typed call made while checking is ON is only required to raise TypeCheckError at SOME moment, and only "
             "if the switch stayed on for the object's whole life; ill-typed yielded / awaited results while ON are not judged; hooked `async def` while ON is not judged (the hook does not instrument it)",
@@ -2244,7 +2870,7 @@ def replay(rep):
             hit = [(r, dis, reason) for r, dis, reason, _ in res if r["step"] == rep["step"] and r["subj"] == rep["subj"]]
             return dict(
                 violates=any(reason for _, _, reason in hit),
-                observations=[dict(call=r["call"], switch_on=dis, decorated=r["d"], undecorated=r["p"], reason=reason) for r, dis, reason in hit],
+                observations=[dict(call=r["call"], switch_on=dis, decorated=txt(r["d"]), undecorated=txt(r["p"]), reason=reason) for r, dis, reason in hit],
             )
         if part in ("lazy-hist", "lazy-matrix"):
             combo = tuple(rep["combo"])
@@ -2261,14 +2887,14 @@ def replay(rep):
                     for r, v in verdicts
                 ],
             )
-        if part == "matrix":
+        if part in ("matrix", "names"):
             combo = tuple(rep["combo"])
-            with World(fx, need_hook=(combo[0] == "hook")) as w:
+            with World(fx, need_hook=(combo[0] == "hook"), extra=[(combo[2], combo[1], combo[3])] if (combo[0] == "hook" and "~" in combo[1]) else ()) as w:
                 res = run_matrix_case(fx, w, combo, rep["script"])
             hit = [(r, dis, reason) for r, dis, reason, _ in res if r["step"] == rep["step"] and r["call"] == rep["call"]]
             return dict(
                 violates=any(reason for _, _, reason in hit),
-                observations=[dict(call=r["call"], switch_on=dis, decorated=r["d"], undecorated=r["p"], reason=reason) for r, dis, reason in hit],
+                observations=[dict(call=r["call"], switch_on=dis, decorated=txt(r["d"]), undecorated=txt(r["p"]), reason=reason) for r, dis, reason in hit],
             )
         if part == "update":
             cfg = fx.config
